@@ -139,6 +139,12 @@ func newSut(o sutOpts) *sut {
 		s.upMu.Lock()
 		s.upLog = append(s.upLog, upstreamReq{r.Method, r.URL.Path, r.URL.RawQuery, r.Host, r.Header.Clone()})
 		s.upMu.Unlock()
+		if strings.HasPrefix(r.URL.Path, "/hang/") { // an upstream that does not answer (until the caller gives up)
+			select {
+			case <-r.Context().Done():
+			case <-time.After(1500 * time.Millisecond):
+			}
+		}
 		w.WriteHeader(200)
 		w.Write([]byte("upstream-ok"))
 	}))
@@ -771,3 +777,28 @@ func (s *sut) installHook(h func(c *server.Peer, cmd string, args ...string) boo
 }
 
 var _ = context.Background
+
+// abortedProxy: a proxied request of a browser (with its cookies) whose client goes away while the upstream has not answered yet: the request's context is
+// cancelled mid-flight. Whatever the proxy's error path logs ends up in the captured logs, which every driver scans for secrets at its end.
+func (s *sut) abortedProxy(rp *replica, b *browser, base string) int {
+	ctx, cancel := context.WithCancel(context.Background())
+	defer cancel()
+	req := httptest.NewRequest("GET", base+"/hang/report", nil).WithContext(ctx)
+	for _, ck := range b.cookiesFor(req.URL) {
+		req.AddCookie(ck)
+	}
+	rec := httptest.NewRecorder()
+	done := make(chan struct{})
+	go func() {
+		defer close(done)
+		defer func() { recover() }()
+		rp.h.ServeHTTP(rec, req)
+	}()
+	time.Sleep(150 * time.Millisecond)
+	cancel()
+	select {
+	case <-done:
+	case <-time.After(3 * time.Second):
+	}
+	return rec.Code
+}
